@@ -135,6 +135,11 @@ pub enum AK {
     FlushCancelled { fid: u64 },
     CloseBegin,
     CloseEnd,
+    /// fault `user_merge_panics`: the wrapped sink's merge panics for this input (inside the MutexSink lock / on the worker thread)
+    MergePanic { tag: u32, id: u64 },
+    SendPanicked { id: u64 },
+    FlushPanicked { fid: u64 },
+    ClosePanicked,
     HandleDropped,
     Phase(&'static str),
 }
@@ -166,6 +171,15 @@ thread_local! {
     static CURRENT_LOG: std::cell::RefCell<Option<ALog>> = const { std::cell::RefCell::new(None) };
 }
 static GLOBAL_LOG: Mutex<Option<ALog>> = Mutex::new(None);
+/// inputs whose merge panics (plan key `poison`)
+static POISON: Mutex<BTreeSet<u64>> = Mutex::new(BTreeSet::new());
+
+fn maybe_poison(log: &ALog, tag: u32, id: u64) {
+    if POISON.lock().unwrap_or_else(|e| e.into_inner()).contains(&id) {
+        log.log(AK::MergePanic { tag, id });
+        std::panic::panic_any("harness: merging this input panics (user code inside the aggregation sink)");
+    }
+}
 
 fn global_log() -> ALog {
     GLOBAL_LOG.lock().unwrap().clone().unwrap_or_default()
@@ -213,6 +227,7 @@ impl HasId for PlainEntry {
 impl<T: HasId, Inner: AggregateSink<T>> AggregateSink<T> for Logged<Inner> {
     fn merge(&mut self, entry: T) {
         detsim::yield_point();
+        maybe_poison(&self.log, self.tag, entry.the_id());
         self.log.log(AK::Merge { tag: self.tag, id: entry.the_id() });
         self.inner.as_mut().unwrap().merge(entry);
     }
@@ -221,6 +236,7 @@ impl<T: HasId, Inner: AggregateSink<T>> AggregateSink<T> for Logged<Inner> {
 impl<T: HasId, Inner: AggregateSinkRef<T>> AggregateSinkRef<T> for Logged<Inner> {
     fn merge_ref(&mut self, entry: &T) {
         detsim::yield_point();
+        maybe_poison(&self.log, self.tag, entry.the_id());
         self.log.log(AK::Merge { tag: self.tag, id: entry.the_id() });
         self.inner.as_mut().unwrap().merge_ref(entry);
     }
@@ -368,7 +384,7 @@ fn drop_guard<G>(g: G, unwind: bool) {
 fn a_send(r: &ARun, id: u64, unwind: bool) {
     let Some(i) = r.inputs.get(&id) else { return };
     r.log.log(AK::SendBegin { id });
-    match &r.target {
+    let res = std::panic::catch_unwind(std::panic::AssertUnwindSafe(|| match &r.target {
         Target::Keyed(m) => m.lock().unwrap().merge(mk_call(i).close()),
         Target::Tee(m) => m.lock().unwrap().merge(mk_call(i).close()),
         Target::Worker(w) => {
@@ -409,8 +425,11 @@ fn a_send(r: &ARun, id: u64, unwind: bool) {
                 }
             }
         }
-    }
-    r.log.log(AK::SendEnd { id });
+    }));
+    match res {
+        Ok(()) => r.log.log(AK::SendEnd { id }),
+        Err(_) => r.log.log(AK::SendPanicked { id }),
+    };
 }
 
 fn a_flush(r: &ARun, op: &Value) {
@@ -444,20 +463,22 @@ fn a_flush(r: &ARun, op: &Value) {
 
 fn flush_worker(r: &ARun, fid: u64, op: &Value, fut: impl std::future::Future<Output = ()>) {
     r.log.log(AK::FlushReq { fid });
-    if js(op, "mode", "await") == "cancel" {
-        let mut f = std::pin::pin!(fut);
-        match detsim::future::poll_once(&mut f) {
-            std::task::Poll::Ready(()) => {
-                r.log.log(AK::FlushDone { fid });
-            }
-            std::task::Poll::Pending => {
-                r.log.log(AK::FlushCancelled { fid });
-            }
+    let cancel = js(op, "mode", "await") == "cancel";
+    let res = std::panic::catch_unwind(std::panic::AssertUnwindSafe(move || {
+        if cancel {
+            let mut f = std::pin::pin!(fut);
+            detsim::future::poll_once(&mut f)
+        } else {
+            detsim::future::block_on(fut);
+            std::task::Poll::Ready(())
         }
-    } else {
-        detsim::future::block_on(fut);
-        r.log.log(AK::FlushDone { fid });
-    }
+    }));
+    match res {
+        Ok(std::task::Poll::Ready(())) => r.log.log(AK::FlushDone { fid }),
+        Ok(std::task::Poll::Pending) => r.log.log(AK::FlushCancelled { fid }),
+        // the request failed loudly (the worker is gone): not a completion
+        Err(_) => r.log.log(AK::FlushPanicked { fid }),
+    };
 }
 
 fn a_ops(r: &Arc<ARun>, ops: &[Value]) {
@@ -484,6 +505,7 @@ fn tee_sink(log: &ALog) -> TeeSink<KeyedAggregator<Call, CaptureSink>, TeeSink<K
 
 fn agg_main(plan: &Value, slot: Arc<Mutex<Option<AggRun>>>, log: ALog) {
     *GLOBAL_LOG.lock().unwrap() = Some(log.clone());
+    *POISON.lock().unwrap_or_else(|e| e.into_inner()) = ja(plan, "poison").iter().filter_map(|x| x.as_u64()).collect();
     let kind = js(plan, "kind", "keyed").to_string();
     // u64::MAX stands for Duration::MAX ("timer off")
     let interval = match ju(plan, "flush_interval_ns", 1_000_000_000) {
@@ -529,10 +551,16 @@ fn agg_main(plan: &Value, slot: Arc<Mutex<Option<AggRun>>>, log: ALog) {
             let h = m.lock().unwrap().take();
             if let Some(h) = h {
                 r.log.log(AK::CloseBegin);
-                let closed = h.close();
-                let t = to_test_entry(RootEntry::new(closed));
-                r.log.log(emit_from(0, &t, false));
-                r.log.log(AK::CloseEnd);
+                match std::panic::catch_unwind(std::panic::AssertUnwindSafe(move || h.close())) {
+                    Ok(closed) => {
+                        let t = to_test_entry(RootEntry::new(closed));
+                        r.log.log(emit_from(0, &t, false));
+                        r.log.log(AK::CloseEnd);
+                    }
+                    Err(_) => {
+                        r.log.log(AK::ClosePanicked);
+                    }
+                }
             }
         }
         Target::Embedded(m) => {
@@ -653,6 +681,17 @@ pub fn check_c10(plan: &Value, run: &AggRun) -> Option<Violation> {
     }
     let merge_pos: HashMap<u64, u64> = merge_order.iter().map(|(s, id)| (*id, *s)).collect();
     let is_worker = matches!(kind, "worker" | "worker_tee");
+    // fault `user_merge_panics`: once it fired, the sink has failed *loudly* (poisoned lock / dead worker: later
+    // merges, flush requests and the close panic). What returned normally is still held to the property: a
+    // flush that completes, a close that returns an aggregate.
+    let poison_planned = !ja(plan, "poison").is_empty();
+    let poisoned = h.iter().any(|e| matches!(e.k, AK::MergePanic { .. }));
+    let close_panicked = h.iter().any(|e| matches!(e.k, AK::ClosePanicked));
+    if !poison_planned {
+        if let Some(e) = h.iter().find(|e| matches!(e.k, AK::SendPanicked { .. } | AK::FlushPanicked { .. } | AK::ClosePanicked)) {
+            return Some(Violation::new("panic", format!("an aggregation call panicked although no user code did: {:?}", e.k)));
+        }
+    }
     // which sinks carry aggregates keyed how
     let branches: Vec<(u32, &str)> = match kind {
         "tee" | "worker_tee" => vec![(0, "endpoint"), (1, "odd")],
@@ -736,8 +775,9 @@ pub fn check_c10(plan: &Value, run: &AggRun) -> Option<Violation> {
         for (id, inp) in &inputs {
             let Some(ret) = send_ret.get(id) else { continue };
             let must = match kind {
-                "mutex" | "embedded" => close_begin.map(|c| *ret < c).unwrap_or(false),
-                _ => true,
+                "mutex" | "embedded" => close_begin.map(|c| *ret < c).unwrap_or(false) && !close_panicked,
+                // a dead worker takes what it held with it (and `send` is fire-and-forget)
+                _ => !poisoned,
             };
             if must && !seen.contains_key(id) {
                 return Some(Violation::new("input_lost", format!("input {id} (key {}) was merged but is in no emitted aggregate of sink {sink}", inp.key)));
@@ -824,7 +864,7 @@ pub fn check_c10(plan: &Value, run: &AggRun) -> Option<Violation> {
                 _ => {}
             }
         }
-        if let Some(tc) = timed_checked {
+        if let Some(tc) = timed_checked.filter(|_| !poisoned) {
             for (id, ret) in &send_ret {
                 if *ret < tc {
                     match emit_seq.get(id) {
@@ -899,10 +939,32 @@ pub fn gen_c10(rng: &mut Rng, _tier: Tier) -> Value {
         rng,
         &SchedOpts { est_choices: 200, threads: nthreads + 2, jump_max_ns: if threaded { 20 * interval.min(1_000_000_000) } else { 0 }, stall_clock_max_ns: interval.min(1_000_000_000) * 3, max_steps: if spike { 400_000 } else { 80_000 } },
     );
+    // fault `user_merge_panics` (mutex-shared and worker sinks): merging one of the inputs panics inside the sink
+    let mut threads = threads;
+    let mut main_ops = main_ops;
+    let mut poison: Vec<u64> = vec![];
+    if matches!(kind, "mutex" | "worker") && !spike && next_id > 1 && rng.chance(0.1) {
+        poison.push(1 + rng.below(next_id - 1));
+        // (a guard dropped during unwinding whose merge panics would be a double panic: abort)
+        let clear = |ops: &mut Vec<Value>| {
+            for o in ops.iter_mut() {
+                if o.get("unwind").is_some() {
+                    o["unwind"] = json!(false);
+                }
+            }
+        };
+        for t in threads.iter_mut() {
+            if let Some(a) = t.as_array_mut() {
+                clear(a);
+            }
+        }
+        clear(&mut main_ops);
+    }
     json!({
         "scenario": "aggregation",
         "sched": sched,
         "kind": kind,
+        "poison": poison,
         "flush_interval_ns": interval,
         "threads": threads,
         "main_ops": main_ops,
@@ -953,6 +1015,11 @@ impl Scenario for Aggregation {
                     AK::Merge { .. } => pending += 1,
                     AK::FlushEnd { .. } => pending = 0,
                     AK::FlushCancelled { .. } => r.fault("future_cancelled", 1),
+                    AK::MergePanic { .. } => {
+                        r.fault("user_merge_panics", 1);
+                        r.probe(if js(plan, "kind", "") == "mutex" { "merge_panicked_inside_mutex_sink" } else { "merge_panicked_on_worker_thread" }, 1);
+                    }
+                    AK::FlushPanicked { .. } => r.probe("flush_request_failed_loudly", 1),
                     _ => {}
                 }
                 st.insert(mix(detsim::rng::hash_str(&format!("{:?}", std::mem::discriminant(&e.k))), pending.min(6)));
@@ -994,7 +1061,7 @@ impl Scenario for Aggregation {
         r
     }
     fn probes(&self) -> Vec<&'static str> {
-        vec!["cardinality_spike", "kind_keyed", "kind_tee", "kind_worker", "kind_worker_tee", "kind_mutex", "kind_embedded", "timed_flush_checked", "worker_last_handle_dropped"]
+        vec!["cardinality_spike", "kind_keyed", "kind_tee", "kind_worker", "kind_worker_tee", "kind_mutex", "kind_embedded", "timed_flush_checked", "worker_last_handle_dropped", "merge_panicked_inside_mutex_sink", "merge_panicked_on_worker_thread", "flush_request_failed_loudly"]
     }
     fn components(&self) -> Value {
         json!({
@@ -1005,6 +1072,6 @@ impl Scenario for Aggregation {
         })
     }
     fn rule(&self) -> &'static str {
-        "each run: sink kind in {keyed, tee(keyed+by-parity+raw), worker, worker+tee, mutex-shared}, 1-5 keys, 0-3 producer threads x 0-8 inputs (unique id as histogram observation, random weight/last), flushes awaited or cancelled, sleeps around the flush interval, close-and-merge guards; worker: timed flush and termination after the last handle. non-trivial = threaded runs with >= 1 preemption, single-threaded runs with >= 2 inputs; distinct = distinct (context-switch signature, op lists)"
+        "each run: sink kind in {keyed, tee(keyed+by-parity+raw), worker, worker+tee, mutex-shared}, 1-5 keys, 0-3 producer threads x 0-8 inputs (unique id as histogram observation, random weight/last), flushes awaited or cancelled, sleeps around the flush interval, close-and-merge guards; worker: timed flush and termination after the last handle; 10 % of the mutex/worker runs: merging one input panics inside the sink (what still returns normally afterwards - a completed flush, a returned aggregate - must conserve). non-trivial = threaded runs with >= 1 preemption, single-threaded runs with >= 2 inputs; distinct = distinct (context-switch signature, op lists)"
     }
 }
